@@ -13,7 +13,7 @@ from dbsession import DB
 
 
 def driver(trace_text, mode=None):
-    p = subprocess.run([os.path.join(BUILD, "c08_driver")] + ([mode] if mode else []), input=trace_text, capture_output=True, text=True, timeout=900)
+    p = subprocess.run([os.path.join(BUILD, "c08_driver")] + ([mode] if mode else []), input=trace_text, capture_output=True, text=True, timeout=900, preexec_fn=big_stack)
     return p.returncode, [l for l in p.stdout.strip().split("\n") if l]
 
 
@@ -75,14 +75,104 @@ def pressure_history(rng):
         db.destroy()
 
 
+def pressure_history2(rng):
+    """allocation pressure: in a pool that is already full, a transaction changes a row on a resident page and right
+    afterwards allocates a new table page, so that pages it has just dirtied become victims of NewPage (not only of
+    FetchPage).  Several small unindexed tables: a statement's scan touches 1-3 pages, not the whole pool."""
+    frames = rng.choice([11, 12, 14, 16])
+    db = DB(mem_kb=frames * 4)
+    try:
+        if not db.open().startswith("ok"):
+            return None, "database does not start"
+        tabs = ["w%d" % i for i in range(rng.choice([4, 6, 8]))]
+        nk = {}
+        for t in tabs:
+            db.cmd("mktable %s k:i:n,v:s:n" % t)
+            nk[t] = rng.randrange(8, 30)
+            for i in range(nk[t]):
+                db.cmd("rawinsert %s i:%d s:%s" % (t, i, (b"p" * rng.choice([120, 200, 240])).hex()))
+        db.cmd("checkpoint")
+        db.cmd("begin big")
+        for step in range(rng.randrange(80, 200)):
+            t = rng.choice(tabs)
+            k = rng.randrange(nk[t])
+            r = rng.random()
+            if r < 0.6:
+                a = db.cmd("tsql big UPDATE %s SET v = '%s' WHERE k = %d OR k = %d;" % (t, "u" * rng.choice([100, 118, 200]), k, k))
+            elif r < 0.7:
+                a = db.cmd("tsql big DELETE FROM %s WHERE k = %d OR k = %d;" % (t, k, k))
+            else:
+                a = "ok"
+            if not a.startswith("ok") or db.dead:
+                break
+            # a burst of wide inserts into another table: a new table page is allocated every ~15 rows
+            t2 = rng.choice(tabs)
+            for j in range(rng.randrange(1, 18)):
+                a = db.cmd("tsql big INSERT INTO %s(k,v) VALUES (%d, '%s');" % (t2, 100000 + step * 100 + j, "n" * 250))
+                if not a.startswith("ok"):
+                    break
+            if not a.startswith("ok") or db.dead:
+                break
+        if db.dead:
+            return None, "engine stopped answering: " + db.dead
+        db.cmd(rng.choice(["commit big", "abort big", "abort big"]))
+        tp = os.path.join(db.dir, "p.trace")
+        db.cmd("trace " + tp)
+        return open(tp).read(), "allocation pressure: updates of resident rows followed by bursts of wide inserts in one transaction | %d tables, pool %d frames" % (len(tabs), frames)
+    finally:
+        db.destroy()
+
+
+def concurrent_history(seed):
+    """several goroutines commit writing transactions at the same time (overlapping log flushes); the marker "CR <id>" is
+    put into the trace by the committing goroutine right after TransactionManager.Commit returned"""
+    import tempfile, shutil
+    rng = random.Random(seed)
+    d = tempfile.mkdtemp(prefix="c08c_", dir=os.path.join(BUILD, "tmp"))
+    try:
+        ng, ntx, kb = rng.choice([2, 4, 8, 16]), rng.choice([20, 40]), rng.choice([200, 400, 2000])
+        try:
+            p = subprocess.run([HARNESS_BIN, "c08c", "-", d, str(ng), str(ntx), str(kb), str(seed % 100000)], capture_output=True, text=True, timeout=180, cwd=d,
+                               env=dict(os.environ, GOMAXPROCS=str(rng.choice([2, 4, 16]))))
+        except subprocess.TimeoutExpired:
+            return None, "concurrent committing transactions do not finish (goroutines=%d)" % ng
+        if not p.stdout.strip().startswith("ok") or not os.path.exists(os.path.join(d, "conc.trace")):
+            return None, "concurrent history failed: %s" % (p.stdout.strip()[-200:] or p.stderr.strip()[-300:])
+        return open(os.path.join(d, "conc.trace")).read(), "concurrent: %d goroutines x %d writing transactions, pool %dKB (%s)" % (ng, ntx, kb, p.stdout.strip())
+    finally:
+        shutil.rmtree(d, ignore_errors=True)
+
+
+def big_txn_trace(rng):
+    """one transaction whose log exceeds the log buffer: AppendLogRecord flushes and swaps buffers in the middle of it"""
+    db = DB(mem_kb=8000)
+    try:
+        if not db.open().startswith("ok"):
+            return None, "database does not start"
+        db.cmd("mktable bt k:i:n,g:i:n,v:s:n")
+        db.cmd("begin x")
+        n = rng.choice([2300, 2600])
+        for i in range(n):
+            if not db.cmd("tsql x INSERT INTO bt(k,g,v) VALUES (%d, %d, '%s');" % (i, i % 7, "b" * (230 + i % 20))).startswith("ok"):
+                break
+        db.cmd("commit x")
+        db.sql("INSERT INTO bt(k,g,v) VALUES (999999, 1, 'after');")
+        tp = os.path.join(db.dir, "big.trace")
+        db.cmd("trace " + tp)
+        return open(tp).read(), "one transaction of %d wide inserts (more log than the log buffer holds), then a small one" % n
+    finally:
+        db.destroy()
+
+
 def run(res, replay=None):
     res.rule = ("serial histories of 8-19 units as in C01 (auto-commit statements and explicit transactions — the latter with commit-return markers —, growing updates, aborts, checkpoints, a long-running open transaction), "
-                "pools of 30-100 frames to force evictions of uncommitted changes, two thirds of the histories continued across a clean or crash restart; the whole I/O trace is given to the extracted wal_ok; "
+                "pools of 30-100 frames to force evictions of uncommitted changes, two thirds of the histories continued across a clean or crash restart; plus eviction- and allocation-pressure histories in pools of 11-35 frames, "
+                "one transaction larger than the log buffer, and 2-16 goroutines committing writing transactions concurrently (commit-return markers placed by the committing goroutine); the whole I/O trace is given to the extracted wal_ok; "
                 "every WriteLog is additionally round-tripped through the extracted codec (ser_rec (parse bytes) = bytes); non-trivial = distinct trace with >= 1 tracked page write preceded by a log write")
     res.trusted = COMMON_TRUSTED + ["hook H1 records every WritePage / WriteLog / GCLogFile call in order; the harness adds a marker right after TransactionManager.Commit of a writing transaction returned",
                                     "OCaml driver reads the page LSN from bytes 4..8 of the page image"]
     res.assumptions = ["index pages reuse the LSN field as an update counter: only pages introduced by NewTablePage records count (the catalog's own two pages are created unlogged at bootstrap)",
-                       "concurrency level 1 for the traced histories; the concurrent workloads of C12 exercise the log manager's buffer swap under goroutines without tracing"]
+                       "traced concurrent histories are insert-only transactions through the executor API (verifharness c08c); SQL-level concurrency is exercised by C12 without tracing"]
     go_ok = standard_build(res)
     if not go_ok:
         return
@@ -98,6 +188,21 @@ def run(res, replay=None):
         text, desc = pressure_history(rng)
         if text is None:
             res.oracle_failures.append(("pressure history", desc)); continue
+        texts.append(text); descs.append(desc)
+    text, desc = big_txn_trace(rng)
+    if text is None:
+        res.oracle_failures.append(("big transaction", desc))
+    else:
+        texts.append(text); descs.append(desc)
+    from crashlib import parallel
+    for text, desc in parallel(concurrent_history, [rng.randrange(10**9) for _ in range(6 if res.tier == "quick" else 60)], workers=3):
+        if text is None:
+            res.oracle_failures.append(("concurrent history", desc)); continue
+        texts.append(text); descs.append(desc)
+    seeds = [rng.randrange(10**9) for _ in range(14 if res.tier == "quick" else 100)]
+    for text, desc in parallel(lambda sd: pressure_history2(random.Random(sd)), seeds, workers=8):
+        if text is None:
+            res.oracle_failures.append(("allocation pressure history", desc)); continue
         texts.append(text); descs.append(desc)
     rc, outs = driver("END\n".join(texts) + ("END\n" if texts else ""))
     rc2, rts = driver("END\n".join(texts) + ("END\n" if texts else ""), "roundtrip")
